@@ -19,16 +19,17 @@ func init() {
 	register(&core.Spec{
 		ID: "C02",
 		Explanation: "Decides clause 2 of C02 and the agreement clause structurally: (PARTIAL-DEF) the Partial flag of a parse error is only ever written as the result of comparing the START of the error's range with the length of the very source being parsed (or as constant false), so every error marked partial starts at the end of the input; (ENTER-AGREE) the predicate the editor's Enter key uses to decide between inserting a newline and submitting returns 'incomplete' exactly when some parse error is partial by that same definition (its Partial flag, or its start equal to the length of the code handed to the parser). That every proper prefix of a valid program yields only end-of-input errors is a fact about the grammar and is not decided.",
-		NotCovered:  "clause 1 (prefixes of valid programs only produce errors at the end of input) - a language-level fact",
-		Rules:       []string{"PARTIAL-DEF", "ENTER-AGREE"},
+		NotCovered:  "clause 1 as a whole (prefixes of valid programs only produce errors at the end of input) is a language-level fact; ERROR-AT-POS decides only its structural part, that no error is reported at a saved or node position",
+		Rules:       []string{"PARTIAL-DEF", "ENTER-AGREE", "ERROR-AT-POS: every parse error is reported at the parser's position at the report or a constant number of bytes before it"},
 		Patterns:    []string{"./pkg/parse", "./pkg/edit", "./pkg/diag"},
-		Run:         runC02,
-		MinCounts:   map[string]int{"PARTIAL-DEF": 1, "ENTER-AGREE": 1},
+		Run:         func(p *core.Program, r *core.Report) { runC02(p, r); runErrorAtPos(p, r) },
+		MinCounts:   map[string]int{"PARTIAL-DEF": 1, "ENTER-AGREE": 1, "ERROR-AT-POS": 2},
 		Trusted:     trustedBase,
 		Controls: []core.Control{
 			{Name: "partial-from-range-end", Rule: "PARTIAL-DEF", File: "pkg/parse/parser.go", Old: "Partial: r.Range().From == len(ps.src),", New: "Partial: r.Range().To == len(ps.src),", Fire: true, Quick: true, Patterns: []string{"./pkg/parse"}},
 			{Name: "partial-always-true-at-eof-position", Rule: "PARTIAL-DEF", File: "pkg/parse/parser.go", Old: "Partial: r.Range().From == len(ps.src),", New: "Partial: ps.pos == len(ps.src),", Fire: true, Patterns: []string{"./pkg/parse"}},
 			{Name: "enter-tests-range-end", Rule: "ENTER-AGREE", File: "pkg/edit/builtins.go", Old: "\t\tif e.Context.From == len(code) {", New: "\t\tif e.Context.To == len(code) {", Fire: true, Quick: true},
+			{Name: "missing-operand-reported-after-operator", Rule: "ERROR-AT-POS", File: "pkg/parse/parser.go", Old: "func (ps *parser) error(e error) {\n\tend := ps.pos\n", New: "func (ps *parser) errorAt(at int, e error) {\n\tps.errorp(diag.PointRanging(at), e)\n}\n\nfunc (ps *parser) error(e error) {\n\tend := ps.pos\n", Fire: true, Want: "errorAt", Patterns: []string{"./pkg/parse"}},
 			{Name: "benign-operands-swapped", Rule: "PARTIAL-DEF", File: "pkg/parse/parser.go", Old: "Partial: r.Range().From == len(ps.src),", New: "Partial: len(ps.src) == r.Range().From,", Fire: false},
 			{Name: "benign-enter-uses-partial-flag", Rule: "ENTER-AGREE", File: "pkg/edit/builtins.go", Old: "\t\tif e.Context.From == len(code) {", New: "\t\tif e.Partial {", Fire: false},
 		},
